@@ -463,6 +463,34 @@ def c46_project_record(reprs, blocks):
 # --------------------------------------------------------------------------------------
 
 
+class Design:
+    """B1 runs of FlavorsMC started in background threads (they need no trace file), so that
+    the exhaustive design exploration overlaps with the probing of the implementation."""
+
+    def __init__(self, chk):
+        from concurrent.futures import ThreadPoolExecutor
+
+        self.chk = chk
+        self.pool = ThreadPoolExecutor(max_workers=4)
+        self.futs = []
+
+    def run(self, cfg, label, expect_violation=None, workers=8):
+        self.futs.append(
+            (cfg, self.pool.submit(self.chk.tlc, "FlavorsMC", cfg, label=label, workers=workers,
+                                   expect_violation=expect_violation))
+        )
+
+    def join(self):
+        """Results in submission order; the intended design (no expected violation) must hold."""
+        out = []
+        try:
+            for cfg, f in self.futs:
+                out.append(f.result())
+        finally:
+            self.pool.shutdown(wait=True)
+        return out
+
+
 def validate(chk, recs, label, batch=400):
     """Run FlavorsTrace over the records; returns [(record, verdict)] for every non-ok verdict."""
     bad = []
